@@ -87,6 +87,7 @@ package keeper
 //@ ensures [only_the_signer_pays] forall a addr :: a != addrstr(msg.Creator) && a != module("bridge") ==> bank.bal[a] == old(bank.bal[a])
 //@ ensures [signer_pays_exactly_the_amount] err == nil ==> bank.bal[addrstr(msg.Creator)] == old(bank.bal[addrstr(msg.Creator)]) - msg.Amount.Amount && bank.supply == old(bank.supply) - msg.Amount.Amount
 //@ ensures [only_positive_loya_amounts] err == nil ==> msg.Amount.Amount > 0 && msg.Amount.Denom == "loya"
+//@ ensures [a_recipient_that_is_not_hex_is_refused] !ishexbytes(msg.Recipient) ==> err != nil && nothing_written()
 
 // ---- validator-set checkpoints (C16, C15) ----
 // Checkpoints are numbered by bridge.LatestCheckpointIdx.Index; ValidatorCheckpointIdxMap maps an index to the
